@@ -8,5 +8,6 @@ CONSTANTS Kind = "channel"
           Slot = 0
           SidOff = 0
           AsImplemented = TRUE
+          Frag = 0
           LibSource = FALSE
 INVARIANT NoClauseFails
